@@ -206,7 +206,9 @@ PROPS["C20"] = {
             "they came from, each after the library's CTR call on exactly that chunk; skinny-ecb / skinny-tweak write the whole blocks of every chunk (trailing "
             "partial block dropped), transformed in the direction of -d (tweak tool: every block under a freshly set, incremented tweak); files closed, objects "
             "cleaned up; invalid options exit 1 before the output file is opened.  parse_options returns 1 only with lengths inside the LIBRARY's accepted "
-            "ranges, so every library call in main meets its precondition; parse_hex never writes beyond max_len; increment_tweak is a big-endian +1.",
+            "ranges, so every library call in main meets its precondition, and (ghost option record, witness byte) with key / counter / tweak left EXACTLY as the last "
+            "-k and -c/-t arguments parsed: same length, same bytes, no padding, truncation or re-alignment; no -c/-t: block_size zero bytes; parse_hex never "
+            "writes beyond max_len; increment_tweak is a big-endian +1.",
     "assumptions": ["ghost file model = assumed contract of fopen/fread/feof/fwrite/fclose for regular files (short read only at end of file); getopt model = any option "
                     "sequence with arguments of at most 8 characters; strcmp result abstracted",
                     "'output == the library's transformation of the input' is by composition with C05 (CTR split independence), C01/C04 (block functions) - the tool "
